@@ -2,6 +2,7 @@ package drv
 
 import (
 	"bytes"
+	"compress/gzip"
 	"context"
 	"encoding/json"
 	"fmt"
@@ -31,8 +32,21 @@ type injectCase struct {
 	N                                   int
 	Method, Accept, Mode, Dest, Referer string
 	Status                              int
-	Ctype, Dispo, Body, First           string
+	Ctype, Dispo, Body, First, Cenc     string
 	Banner, Shim                        bool
+}
+
+// injectWire is the body as the backend puts it on the wire: the document itself, or its gzip coding.
+func injectWire(ic injectCase) []byte {
+	b := injectBody(ic.Body, ic.N)
+	if ic.Cenc != "gzip" {
+		return b
+	}
+	var z bytes.Buffer
+	w := gzip.NewWriter(&z)
+	w.Write(b)
+	w.Close()
+	return z.Bytes()
 }
 
 func injectBody(class string, n int) []byte {
@@ -104,7 +118,7 @@ func injectDriver(a *Args) {
 						c.Write([]byte("HTTP/1.1 200 OK\r\nContent-Length: 0\r\n\r\n"))
 						continue
 					}
-					body := injectBody(ic.Body, ic.N)
+					body := injectWire(ic)
 					var head bytes.Buffer
 					text := http.StatusText(ic.Status)
 					fmt.Fprintf(&head, "HTTP/1.1 %d %s\r\n", ic.Status, text)
@@ -116,6 +130,9 @@ func injectDriver(a *Args) {
 						head.WriteString("Content-Disposition: inline\r\n")
 					case "attachment":
 						head.WriteString("Content-Disposition: attachment; filename=\"f.html\"\r\n")
+					}
+					if ic.Cenc == "gzip" {
+						head.WriteString("Content-Encoding: gzip\r\n")
 					}
 					head.WriteString("Cache-Control: max-age=60\r\nX-Orig: 1\r\nX-Frame-Options: DENY\r\n")
 					if ic.Status == 301 {
@@ -181,6 +198,9 @@ func injectDriver(a *Args) {
 		req := httptest.NewRequest(ic.Method, target, nil)
 		req.Host = "svc.example"
 		req.Header.Set("X-Case", id)
+		// like a browser: name the codings the client can read itself (and keep net/http's transport from
+		// transparently decompressing behind the handler chain's back)
+		req.Header.Set("Accept-Encoding", "gzip")
 		switch ic.Accept {
 		case "html":
 			req.Header.Set("Accept", "text/html")
@@ -208,7 +228,7 @@ func injectDriver(a *Args) {
 		rec := httptest.NewRecorder()
 		chains[[2]bool{ic.Banner, ic.Shim}].ServeHTTP(rec, req)
 		got := rec.Body.Bytes()
-		orig := injectBody(ic.Body, ic.N)
+		orig := injectWire(ic)
 		if ic.Method == "HEAD" {
 			orig = nil
 		}
@@ -219,7 +239,7 @@ func injectDriver(a *Args) {
 			kind = "other"
 		case bytes.Equal(got, orig):
 			kind = "same"
-		case bytes.Contains(orig, []byte("<head>")) && bytes.Equal(got, withScript):
+		case ic.Cenc != "gzip" && bytes.Contains(orig, []byte("<head>")) && bytes.Equal(got, withScript):
 			kind = "script"
 		case bytes.Contains(got, []byte(`id="inverting-proxy-frame"`)) && bytes.Contains(got, []byte("<b>BANNER</b>")):
 			kind = "frame"
@@ -227,12 +247,17 @@ func injectDriver(a *Args) {
 		h := rec.Header()
 		hdrsSame := h.Get("Content-Type") == injectCtype(ic.Ctype) && h.Get("Cache-Control") == "max-age=60" && h.Get("X-Orig") == "1" &&
 			h.Get("X-Frame-Options") == "DENY" && len(h.Values("Content-Disposition")) == map[string]int{"none": 0, "inline": 1, "attachment": 1}[ic.Dispo]
-		frameOK := bytes.Contains(got, []byte(`src="`+req.URL.String()+`"`)) && strings.Contains(h.Get("Cache-Control"), "no-store") &&
+		wantEnc := ""
+		if ic.Cenc == "gzip" {
+			wantEnc = "gzip"
+		}
+		reprSame := h.Get("Content-Type") == injectCtype(ic.Ctype) && h.Get("Content-Encoding") == wantEnc
+		frameOK := h.Get("Content-Encoding") == "" && bytes.Contains(got, []byte(`src="`+req.URL.String()+`"`)) && strings.Contains(h.Get("Cache-Control"), "no-store") &&
 			strings.EqualFold(h.Get("X-Frame-Options"), "sameorigin") && bytes.Count(got, []byte("<iframe")) == 1
 		c := map[string]interface{}{"method": ic.Method, "accept": ic.Accept, "mode": ic.Mode, "dest": ic.Dest, "referer": ic.Referer, "status": ic.Status,
-			"ctype": ic.Ctype, "dispo": ic.Dispo, "body": ic.Body, "first": ic.First, "banner": ic.Banner, "shim": ic.Shim}
-		out := map[string]interface{}{"kind": kind, "hdrs_same": hdrsSame, "frame_ok": frameOK, "status": rec.Code, "len": len(got), "orig_len": len(orig)}
-		sig := fmt.Sprintf("inject:%s/%s/%s/%s/%s/%d/%s/%s/%s/%s/b=%v/s=%v", ic.Method, ic.Accept, ic.Mode, ic.Dest, ic.Referer, ic.Status, ic.Ctype, ic.Dispo, ic.Body, ic.First, ic.Banner, ic.Shim)
+			"ctype": ic.Ctype, "dispo": ic.Dispo, "body": ic.Body, "first": ic.First, "banner": ic.Banner, "shim": ic.Shim, "cenc": ic.Cenc}
+		out := map[string]interface{}{"kind": kind, "hdrs_same": hdrsSame && reprSame, "repr_same": reprSame, "frame_ok": frameOK, "status": rec.Code, "len": len(got), "orig_len": len(orig)}
+		sig := fmt.Sprintf("inject:%s/%s/%s/%s/%s/%d/%s/%s/%s/%s/%s/b=%v/s=%v", ic.Method, ic.Accept, ic.Mode, ic.Dest, ic.Referer, ic.Status, ic.Ctype, ic.Dispo, ic.Body, ic.First, ic.Cenc, ic.Banner, ic.Shim)
 		if mode != "" {
 			sig += ":" + mode
 			id += mode
